@@ -25,7 +25,7 @@ func TestVerifC07Dedup(t *testing.T) {
 		dir, cleanup := simTempDir()
 		defer cleanup()
 		s := newSimSys(t, dir)
-		h := &simHist{s: s, opts: simHistOpts{MaxRounds: 9, Faults: true, Inline: true, KillAfter: true, Dedup: true, CacheActions: true, HTTP: true,
+		h := &simHist{s: s, opts: simHistOpts{MaxRounds: 9, Faults: true, Inline: true, KillAfter: true, Dedup: true, CacheActions: true, HTTP: true, RoundDuringSubmit: true,
 			Universe: rapid.SampledFrom([]int{6, 12, 30}).Draw(t, "universe")}}
 		var ackErr error
 		resub := map[string]int{}
@@ -80,6 +80,7 @@ func TestVerifC07Dedup(t *testing.T) {
 		add(multi > 0, "key-acked>=2-times")
 		add(st.InlineDupInSeq > 0, "dup-while-sequencing")
 		add(st.InlineCacheHits > 0, "inline-cache-hit")
+		add(st.RoundsInsideSubmit > 0, "round-inside-a-submission")
 		add(h.HTTPAcks > 0, "sct-verified-over-http")
 		add(st.CacheRollbacks > 0, "cache-lost-or-rolled-back")
 		add(st.LegacyTables > 0, "legacy-table")
